@@ -46,6 +46,7 @@ type reqD struct {
 	Wellformed bool     `json:"wf"`
 	Ops        []string `json:"ops"`
 	Close      bool     `json:"close"` // request carries Connection: close
+	Short      int      `json:"short,omitempty"` // Content-Length overstates the body by this many bytes; the peer closes after the body
 }
 type desc struct {
 	Op    string `json:"op"` // round | read | big | hist
@@ -61,6 +62,12 @@ type desc struct {
 	Preparse bool   `json:"preparse,omitempty"`
 	Reqs     []reqD `json:"reqs,omitempty"`
 	MaxBody  int    `json:"max_body,omitempty"` // Server.MaxRequestBodySize (0: 64 MiB)
+	// readfiles
+	Sizes      []int  `json:"sizes,omitempty"`
+	Wellformed bool   `json:"wf,omitempty"`
+	Short      int    `json:"short,omitempty"`
+	Shutdown   bool   `json:"shutdown,omitempty"` // hist: call Server.Shutdown at the end and list TMPDIR once more
+	Via        string `json:"via,omitempty"` // func: readMultipartForm directly | request: Request.Read (pre-parse, real threshold)
 }
 
 // ---- Coq rendering -------------------------------------------------------------
@@ -339,6 +346,48 @@ func sizesOf(d desc) []int {
 	return s
 }
 
+// readfiles: readMultipartForm / Request.Read on a body whose size argument (Content-Length) may cover bytes
+// that never come; what is in TMPDIR right after the call
+func runReadFiles(d desc) hlib.Case {
+	c := hlib.Case{Kind: "readfiles-" + d.Via}
+	dir, _ := os.MkdirTemp("", "c35rf-")
+	defer os.RemoveAll(dir)
+	old := os.Getenv("TMPDIR")
+	os.Setenv("TMPDIR", dir)
+	defer os.Setenv("TMPDIR", old)
+	body := reqBody(reqD{Multipart: true, Files: d.Sizes, Wellformed: d.Wellformed}, 0)
+	maxMem := d.MaxMem
+	var ok bool
+	var left []entry
+	if d.Via == "request" {
+		maxMem = fasthttp.VerifDefaultMaxInMemoryFileSize()
+		var hb bytes.Buffer
+		fmt.Fprintf(&hb, "POST /x HTTP/1.1\r\nHost: verif\r\nContent-Type: multipart/form-data; boundary=%s\r\nContent-Length: %d\r\n\r\n", histBoundary, len(body)+d.Short)
+		var req fasthttp.Request
+		err := req.Read(bufio.NewReader(io.MultiReader(bytes.NewReader(hb.Bytes()), bytes.NewReader(body))))
+		ok = err == nil
+		left = listDir(dir)
+		req.Reset()
+	} else {
+		f, err := fasthttp.VerifReadMultipartForm(bytes.NewReader(body), histBoundary, len(body)+d.Short, maxMem)
+		ok = err == nil
+		left = listDir(dir)
+		if f != nil {
+			f.RemoveAll() //nolint:errcheck
+		}
+	}
+	var sz, lf []string
+	for _, n := range d.Sizes {
+		sz = append(sz, hlib.Z(int64(n)))
+	}
+	for _, e := range left {
+		lf = append(lf, hlib.Z(e.size))
+	}
+	c.Coq = hlib.App("CReadFiles", hlib.Z(int64(maxMem)), hlib.List(sz), hlib.Bool(d.Wellformed), hlib.Bool(d.Short > 0), hlib.Bool(ok), hlib.List(lf))
+	c.Sig = fmt.Sprintf("rf-%s-%d-%v-%v-%d-%v", d.Via, maxMem, d.Sizes, d.Wellformed, d.Short, ok)
+	return c
+}
+
 // ---- histories on a real server connection ----------------------------------------
 
 type entry struct {
@@ -552,12 +601,19 @@ func runHist(d desc) hlib.Case {
 		if r.Close {
 			hb.WriteString("Connection: close\r\n")
 		}
-		fmt.Fprintf(&hb, "Content-Length: %d\r\n\r\n", len(body))
+		fmt.Fprintf(&hb, "Content-Length: %d\r\n\r\n", len(body)+r.Short)
 		nEv := len(tr)
-		go func() {
+		if r.Short > 0 {
+			// the peer sends less than it promised and goes away
 			conn.Write(hb.Bytes())
 			conn.Write(body)
-		}()
+			conn.Close()
+		} else {
+			go func() {
+				conn.Write(hb.Bytes())
+				conn.Write(body)
+			}()
+		}
 		var resp fasthttp.Response
 		conn.SetReadDeadline(time.Now().Add(20 * time.Second))
 		rerr := resp.Read(br)
@@ -611,8 +667,21 @@ func runHist(d desc) hlib.Case {
 	} else {
 		conn.Close()
 	}
+	// after Shutdown nothing of this connection may be left either
+	if d.Shutdown {
+		sdDone := make(chan struct{})
+		go func() { s.Shutdown(); close(sdDone) }() //nolint:errcheck
+		select {
+		case <-sdDone:
+		case <-time.After(10 * time.Second):
+			note = "Shutdown did not return"
+		}
+	}
 	mu.Lock()
 	defer mu.Unlock()
+	if d.Shutdown {
+		leftover = append(leftover, int64(len(names(listDir(dir)))))
+	}
 	var lo []string
 	for _, n := range leftover {
 		lo = append(lo, hlib.Z(n))
@@ -640,7 +709,7 @@ func dispatchEv(r reqD, bodyLen int) string {
 		fs = append(fs, hlib.Z(int64(n)))
 	}
 	return "VDispatch " + hlib.App("rq", hlib.Bool(r.Multipart), "true", hlib.List(fs), hlib.Bool(r.Wellformed),
-		hlib.Z(int64(bodyLen)), hlib.Z(int64(len("\r\n--"+histBoundary+"--\r\n"))))
+		hlib.Z(int64(bodyLen)), hlib.Z(int64(len("\r\n--"+histBoundary+"--\r\n"))), hlib.Bool(r.Short > 0))
 }
 
 func run(d desc) hlib.Case {
@@ -651,6 +720,8 @@ func run(d desc) hlib.Case {
 		return runRead(d)
 	case "big":
 		return runBig(d)
+	case "readfiles":
+		return runReadFiles(d)
 	default:
 		return runHist(d)
 	}
@@ -774,12 +845,13 @@ func corpus() []desc {
 	big(1<<20, 1<<20+1, 7)
 	// histories
 	hist := func(stream, preparse bool, reqs ...reqD) {
-		c = append(c, desc{Op: "hist", Stream: stream, Preparse: preparse, Reqs: reqs})
+		c = append(c, desc{Op: "hist", Stream: stream, Preparse: preparse, Reqs: reqs, Shutdown: len(c)%2 == 0 || (len(reqs) > 0 && reqs[len(reqs)-1].Short > 0)})
 	}
 	rq := func(files []int, wf bool, cl bool, ops ...string) reqD {
 		return reqD{Multipart: true, Files: files, Wellformed: wf, Ops: ops, Close: cl}
 	}
 	k := 1024
+	max := fasthttp.VerifDefaultMaxInMemoryFileSize()
 	// streaming body, no pre-parse: MultipartForm() spills above 8 KiB
 	hist(true, false, rq([]int{9 * k}, true, false, "form"), rq([]int{100}, true, false, "form"), rq(nil, true, false, "none"))
 	hist(true, false, rq([]int{8192}, true, false, "form"), rq([]int{8193}, true, false, "form", "form"), rq([]int{5000, 5000}, true, false, "form"))
@@ -803,12 +875,37 @@ func corpus() []desc {
 	// MultipartForm() on a streamed body larger than Server.MaxRequestBodySize
 	c = append(c, desc{Op: "hist", Stream: true, Preparse: false, MaxBody: 10000, Reqs: []reqD{rq([]int{20000}, true, false, "form"), rq([]int{100}, true, false, "form")}})
 	c = append(c, desc{Op: "hist", Stream: true, Preparse: false, MaxBody: 10000, Reqs: []reqD{rq([]int{20000}, true, false, "formlimit:1"), rq([]int{100}, true, false, "form")}})
+	// the body parses but Content-Length promises more than the peer sends: readMultipartForm must drop what it spilled
+	for _, sh := range []int{0, 1, 2, 100} {
+		for _, wf := range []bool{true, false} {
+			for _, sizes := range [][]int{{8193}, {9000, 70000}, {8192}, {5000, 5000}} {
+				c = append(c, desc{Op: "readfiles", Via: "func", MaxMem: 8192, Sizes: sizes, Wellformed: wf, Short: sh})
+			}
+		}
+	}
+	c = append(c, desc{Op: "readfiles", Via: "request", Sizes: []int{max + 1}, Wellformed: true, Short: 1})
+	c = append(c, desc{Op: "readfiles", Via: "request", Sizes: []int{max + 1}, Wellformed: true, Short: 0})
+	c = append(c, desc{Op: "readfiles", Via: "request", Sizes: []int{max/2 + 1, max/2 + 1}, Wellformed: true, Short: 7})
+	c = append(c, desc{Op: "readfiles", Via: "request", Sizes: []int{max + 1}, Wellformed: false, Short: 3})
+	// ... on a real server: pre-parsed request, part just above the 16 MiB threshold, the peer closes after the closing boundary
+	for _, st := range []bool{false, true} {
+		q := rq([]int{max + 1}, true, false, "none")
+		q.Short = 1
+		hist(st, true, rq([]int{10}, true, false, "form"), q)
+		q2 := rq([]int{max/2 + 1, max/2 + 1}, true, false, "none")
+		q2.Short = 50
+		hist(st, true, q2)
+	}
+	{
+		q := rq([]int{9 * k}, true, false, "form")
+		q.Short = 4
+		hist(false, false, rq([]int{9 * k}, true, false, "form"), q) // not pre-parsed: the short body is refused while being read
+	}
 	// no streaming, no pre-parse: nothing ever spills
 	hist(false, false, rq([]int{40 * k}, true, false, "form", "body"), rq([]int{9 * k}, true, false, "none"))
 	// pre-parse (both modes): only parts above 16 MiB spill; a malformed body is refused and the connection closed
 	hist(false, true, rq([]int{40 * k}, true, false, "none", "form", "body"), rq([]int{9 * k}, false, false, "form"))
 	hist(true, true, rq([]int{40 * k}, true, false, "form"), rq([]int{9 * k}, true, false, "resetbody", "form"))
-	max := fasthttp.VerifDefaultMaxInMemoryFileSize()
 	hist(false, true, rq([]int{max + 1}, true, false, "none", "body"), rq([]int{10}, true, false, "form"), rq([]int{max}, true, false, "form"))
 	hist(true, true, rq([]int{max/2 + 1, max/2 + 1}, true, false, "form", "setbody"), rq([]int{max + 1}, true, false, "form", "timeout"), rq([]int{10}, true, true, "form"))
 	return c
@@ -891,7 +988,14 @@ func gen(r *rand.Rand, i int) desc {
 			size = -1
 		}
 		return desc{Op: "read", B: []byte("B"), Size: size, Input: in}
-	case 6: // files across the lowered threshold
+	case 6: // readMultipartForm with an over-stated size, or files across the lowered threshold
+		if r.Intn(2) == 0 {
+			d := desc{Op: "readfiles", Via: "func", MaxMem: 8192, Wellformed: r.Intn(5) != 0, Short: hlib.Pick(r, []int{0, 0, 1, 3, 1000})}
+			for n := 1 + r.Intn(3); n > 0; n-- {
+				d.Sizes = append(d.Sizes, hlib.Pick(r, []int{1, 4000, 8192, 8193, 9000, 20000}))
+			}
+			return d
+		}
 		d := desc{Op: "big", B: []byte("BigB"), MaxMem: 8192}
 		for n := 1 + r.Intn(3); n > 0; n-- {
 			sz := hlib.Pick(r, []int{1, 4000, 8191, 8192, 8193, 9000, 20000, 70000})
@@ -899,7 +1003,7 @@ func gen(r *rand.Rand, i int) desc {
 		}
 		return d
 	default: // histories
-		d := desc{Op: "hist", Stream: r.Intn(4) != 0, Preparse: r.Intn(4) == 0}
+		d := desc{Op: "hist", Stream: r.Intn(4) != 0, Preparse: r.Intn(4) == 0, Shutdown: r.Intn(5) == 0}
 		ops := []string{"form", "form", "none", "setbody", "setbodystring", "appendbody", "resetbody", "setbodyraw", "setbodystream", "removefiles", "userremove"}
 		if !d.Stream {
 			ops = append(ops, "body")
